@@ -22,7 +22,7 @@ RULE = ("stream pure, set c17: every line is one independent case - BgpAnalyser:
 
 def check(ctx):
     # body of ValidatedRouteOrigin::validate regenerated from the source; C17Src: generated definition = model function
-    vlib.translate(ctx, [("pure_fns:C17", "PureFns.lean")])
+    vlib.translate(ctx, [("pure_fns:C17", "PureFnsC17.lean")])
     vlib.prove(ctx, PROPS + ["KrillModel.Props.C17Src"])
     found = False
     if vlib.build_harness(ctx, ["pure"]):
